@@ -264,11 +264,16 @@ ClientRoundTrip(r, o) ==
 (* Responders of the generated application.  A "plain" responder sets a status, any COMBINATION of the
    body sources -- text, data, media each left unset, set to the empty value ('', b'', {}) or to a
    non-empty one; a stream or none -- and optionally a Content-Type of its own
-   (p = [status, text, data, media, stream, ctype]); the other kinds are fixed scripts (errors, redirects,
-   cookies, repeated fields ...).  Each must produce its status once reached; which source wins is C05's
+   (p = [status, text, data, media, stream, ctype, script]); the other kinds are fixed scripts (errors,
+   redirects, cookies, repeated fields ...).  p.script says how the body comes about: "direct" = the
+   framework renders it once at the end; "early" = the application itself calls render_body() first and
+   copies a digest of the bytes into a header (an ETag computed from the body); "early-mutate" = after
+   that it changes the media object in place.  Each must produce its status once reached; which source wins is C05's
    subject, here the four drivers must show the same response. *)
 Tri == {"unset", "empty", "set"}
-NoPlain == [status |-> 200, text |-> "unset", data |-> "unset", media |-> "unset", stream |-> FALSE, ctype |-> FALSE]
+Scripts == {"direct", "early", "early-mutate"}
+NoPlain == [status |-> 200, text |-> "unset", data |-> "unset", media |-> "unset", stream |-> FALSE, ctype |-> FALSE,
+            script |-> "direct"]
 ResponderStatus(k, p) ==
     CASE k = "plain" -> p.status
       [] k = "echo" -> 200 [] k = "text" -> 201 [] k = "data" -> 200 [] k = "stream" -> 200
@@ -278,8 +283,11 @@ ResponderStatus(k, p) ==
 (* Which interface can report the response at all: the WSGI test client passes every response through
    wsgiref.validate (documented), which refuses a Content-Type on a 204/304; the application-set one is
    kept by the framework, so that driver raises instead of returning a result. *)
+(* An application that renders its media itself thereby fills in the Content-Type (documented side effect
+   of rendering resp.media), just as if it had set one. *)
+AppSetsContentType(p) == p.ctype \/ (p.script # "direct" /\ p.text = "unset" /\ p.data = "unset" /\ p.media # "unset")
 Reportable(iface, k, p) ==
-    iface = "client-wsgi" => ~(k = "plain" /\ p.status \in {204, 304} /\ p.ctype)
+    iface = "client-wsgi" => ~(k = "plain" /\ p.status \in {204, 304} /\ AppSetsContentType(p))
 
 (* ------------------------------------------------------------------ histories *)
 (* One application object serves many requests.  The mutable containers the API hands out with a
